@@ -111,7 +111,8 @@ pub struct Plan {
     pub swake_pm: u32,
     pub batch_pm: u32,
     pub cancel_at: Option<u32>,
-    /// F-stuck (async kinds): gates that never become ready (a branch that stays pending forever)
+    /// F-stuck: gates that never become ready (async kinds: a branch that stays pending forever) / events that
+    /// block their thread for as long as the caller is inside the macro (thread kinds)
     pub stuck: BTreeSet<(u32, u32)>,
     /// F-waker (async kinds): every poll of a task is given a fresh waker and wake-ups through older wakers are ignored
     pub fresh_wakers: bool,
@@ -265,6 +266,10 @@ impl Global {
     }
 
     pub fn dep_ok(&self, ev: u32, occ: u32) -> bool {
+        // F-stuck: the event (thread kinds) / gate (async kinds) never gets through while the macro is being evaluated
+        if self.plan.stuck.contains(&(ev, occ)) {
+            return false;
+        }
         for d in &self.plan.deps {
             if d.w_ev == ev && d.w_occ == occ && !self.happened.contains(&(d.t_ev, d.t_occ, d.t_ph as u8)) {
                 return false;
